@@ -7,10 +7,13 @@
 -/
 import BB.Proofs.Add
 import BB.Proofs.Delay
+import BB.Proofs.G5Add
+import BB.Proofs.G5Markers
+import BB.Model.Tools
 import BB.Properties.C10
 
 namespace BB.C16
-open BB BB.Sequence
+open BB BB.Sequence BB.G5
 
 /-! ### the retarget rule (regenerated kernel) -/
 
@@ -294,5 +297,687 @@ theorem bp_add_forge (a b : BP) (sr : ℚ) (ha : a.SR = .num sr) (hb : b.SR = .n
     exact C10.mkBlocks_append sr a.segs b.segs na nb hlen
   · simp only [assemble, sumN_append]
   · simp only [assemble, List.map_append]
+
+/-! ### the sum of consistent sequences over the same channels is consistent -/
+
+/-- "over the same channels" (the property's quantifier): every entry of `a` and every entry of `b`
+    report the same sample rate and the same sorted channel list.  Trivially true for an empty
+    left operand. -/
+def SameShape (a b : Sequence) : Prop :=
+  ∀ x ∈ Dict.vals a.data, ∀ y ∈ Dict.vals b.data,
+    x.getSR = y.getSR ∧ x.channels.map channelListSorter = y.channels.map channelListSorter
+
+instance (a b : Sequence) : Decidable (SameShape a b) := by unfold SameShape; infer_instance
+
+/-- what `checkConsistency() == True` says, clause by clause -/
+theorem consistent_iff (s : Sequence) :
+    s.checkConsistency = .ok true ↔
+      Dict.has s.awgspecs "SR" = true ∧ ∃ srs chans, (Dict.vals s.data).mapM Entry.getSR = .ok srs ∧
+        Element.allSame srs = true ∧ (Dict.vals s.data).mapM Entry.channels = .ok chans ∧
+        allEqLast (chans.map channelListSorter) = true ∧ gapFree (Dict.keys s.data) = true := by
+  unfold Sequence.checkConsistency
+  constructor
+  · intro h
+    split at h
+    · cases h
+    · rename_i hsr
+      split at h
+      · cases h
+      · rename_i srs hsrs
+        split at h
+        · cases h
+        · rename_i hall
+          split at h
+          · cases h
+          · rename_i chans hch
+            split at h
+            · cases h
+            · rename_i heq
+              exact ⟨by simpa using hsr, srs, chans, hsrs, by simpa using hall, hch, by simpa using heq, by simpa using h⟩
+  · rintro ⟨hsr, srs, chans, h1, h2, h3, h4, h5⟩
+    simp [hsr, h1, h2, h3, h4, h5]
+
+/-- helper: every result of a successful `mapM` comes from some input (used for the clause "a + b is consistent") -/
+theorem mapM_mem_rev {α β : Type} (f : α → Except Err β) (l : List α) (r : List β) (h : l.mapM f = .ok r) (b : β)
+    (hb : b ∈ r) : ∃ a ∈ l, f a = .ok b := by
+  obtain ⟨i, hi, rfl⟩ := List.getElem_of_mem hb
+  have hl := mapM_ok_length f l r h
+  exact ⟨l[i]'(by omega), List.getElem_mem _, mapM_ok_getElem f l r h i (by omega) hi⟩
+
+/-- the values stored in the sum: copies of `a`'s, then copies of `b`'s -/
+theorem addCore_vals (a b : Sequence) (ha : Positions a.data) (hb : Positions b.data) :
+    Dict.vals (addCore a b).data = (Dict.vals a.data).map copyEntry ++ (Dict.vals b.data).map copyEntry := by
+  rw [addCore_data a b ha hb]
+  simp [Dict.vals, List.map_map, Function.comp_def]
+
+/-- **`a + b` is consistent**: for consistent `a`, `b` over the same channels (same sorted channel
+    list, same element sample rate) the sequence `+` builds passes `checkConsistency` -/
+theorem add_consistent (a b : Sequence) (ha : a.checkConsistency = .ok true) (hb : b.checkConsistency = .ok true)
+    (hsh : SameShape a b) : (addCore a b).checkConsistency = .ok true := by
+  have hpa := positions_of_consistent a ha
+  have hpb := positions_of_consistent b hb
+  obtain ⟨_, srsA, chA, a1, a2, a3, a4, _⟩ := (consistent_iff a).mp ha
+  obtain ⟨hsr, srsB, chB, b1, b2, b3, b4, _⟩ := (consistent_iff b).mp hb
+  rw [consistent_iff]
+  refine ⟨hsr, srsA ++ srsB, chA ++ chB, ?_, ?_, ?_, ?_, ?_⟩
+  · rw [addCore_vals a b hpa hpb]
+    apply mapM_append_ok
+    · rw [mapM_map_ok, mapM_congr_ok _ Entry.getSR _ (fun x _ => getSR_copyEntry x)]; exact a1
+    · rw [mapM_map_ok, mapM_congr_ok _ Entry.getSR _ (fun x _ => getSR_copyEntry x)]; exact b1
+  · rw [allSame_iff_forall] at a2 b2 ⊢
+    have cross : ∀ x ∈ srsA, ∀ y ∈ srsB, x = y := by
+      intro x hx y hy
+      obtain ⟨ea, hea, fx⟩ := mapM_mem_rev _ _ _ a1 x hx
+      obtain ⟨eb, heb, fy⟩ := mapM_mem_rev _ _ _ b1 y hy
+      have := (hsh ea hea eb heb).1
+      rw [fx, fy] at this
+      exact Except.ok.inj this
+    intro x hx y hy
+    rcases List.mem_append.mp hx with hx | hx <;> rcases List.mem_append.mp hy with hy | hy
+    · exact a2 x hx y hy
+    · exact cross x hx y hy
+    · exact (cross y hy x hx).symm
+    · exact b2 x hx y hy
+  · rw [addCore_vals a b hpa hpb]
+    apply mapM_append_ok
+    · rw [mapM_map_ok, mapM_congr_ok _ Entry.channels _ (fun x _ => channels_copyEntry x)]; exact a3
+    · rw [mapM_map_ok, mapM_congr_ok _ Entry.channels _ (fun x _ => channels_copyEntry x)]; exact b3
+  · rw [allEqLast_iff] at a4 b4 ⊢
+    have cross : ∀ x ∈ chA.map channelListSorter, ∀ y ∈ chB.map channelListSorter, x = y := by
+      intro x hx y hy
+      obtain ⟨cx, hcx, rfl⟩ := List.mem_map.mp hx
+      obtain ⟨cy, hcy, rfl⟩ := List.mem_map.mp hy
+      obtain ⟨ea, hea, fx⟩ := mapM_mem_rev _ _ _ a3 cx hcx
+      obtain ⟨eb, heb, fy⟩ := mapM_mem_rev _ _ _ b3 cy hcy
+      have := (hsh ea hea eb heb).2
+      rw [fx, fy] at this
+      exact Except.ok.inj this
+    intro x hx y hy
+    rw [List.map_append] at hx hy
+    rcases List.mem_append.mp hx with hx | hx <;> rcases List.mem_append.mp hy with hy | hy
+    · exact a4 x hx y hy
+    · exact cross x hx y hy
+    · exact (cross y hy x hx).symm
+    · exact b4 x hx y hy
+  · exact gapFree_of_positions _ (addCore_positions a b hpa hpb).2
+
+/-- the same at the level of `+`: the returned sequence is consistent -/
+theorem add_result_consistent (a b s : Sequence) (h : a.add b = .ok s) (hsh : SameShape a b) :
+    s.checkConsistency = .ok true := by
+  obtain ⟨ha, hb, _, rfl⟩ := (add_ok_iff a b s).mp h
+  exact add_consistent a b ha hb hsh
+
+/-! ### length, positions and content of `a + b` (lifted to `Sequence.add`) -/
+
+/-- **`a + b` has `len(a) + len(b)` positions**, exactly 1..len(a)+len(b); `a`'s entries are found
+    (copied) under their own positions and `b`'s under `position + len(a)` -/
+theorem add_positions (a b s : Sequence) (h : a.add b = .ok s) :
+    s.data.length = a.data.length + b.data.length ∧ Positions s.data ∧
+    s.data = a.data.map (fun p => (p.1, copyEntry p.2)) ++
+      b.data.map (fun p => (p.1 + (a.data.length : ℤ), copyEntry p.2)) ∧
+    (∀ p ∈ Dict.keys a.data, Dict.get? s.data p = (Dict.get? a.data p).map copyEntry) ∧
+    (∀ p ∈ Dict.keys b.data, Dict.get? s.data (p + (a.data.length : ℤ)) = (Dict.get? b.data p).map copyEntry) := by
+  obtain ⟨ha, hb, _, rfl⟩ := (add_ok_iff a b s).mp h
+  have hpa := positions_of_consistent a ha
+  have hpb := positions_of_consistent b hb
+  exact ⟨(addCore_positions a b hpa hpb).1, (addCore_positions a b hpa hpb).2, addCore_data a b hpa hpb,
+    fun p hp => addCore_get_left a b hpa hpb p hp, fun p hp => addCore_get_right a b hpa hpb p hp⟩
+
+/-- **sequencing of `a + b`** (lifted to `Sequence.add`): `a`'s entries unchanged, followed by `b`'s
+    under `position + len(a)` with goto and jump target retargeted; the result is aligned again -/
+theorem add_sequencing (a b s : Sequence) (h : a.add b = .ok s) (ia : Aligned a) (ib : Aligned b) :
+    s.sequencing = a.sequencing ++
+      b.sequencing.map (fun p => (p.1 + (a.data.length : ℤ), retargetSeq (a.data.length : ℤ) p.2)) ∧
+    Aligned s := by
+  obtain ⟨ha, hb, _, rfl⟩ := (add_ok_iff a b s).mp h
+  have hpa := positions_of_consistent a ha
+  have hpb := positions_of_consistent b hb
+  exact ⟨addCore_sequencing a b hpa hpb ia ib, addCore_aligned a b hpa hpb ia ib⟩
+
+/-! ### `Aligned` (and a well-formed settings dictionary) is an invariant of the public interface -/
+
+/-- the sequences that can be built through the public interface: the constructor, the setters for
+    name, AWG settings, filter compensation and sequencing, `addElement`, `addSubSequence`, `copy`,
+    `+`, an in-place edit of a stored element (`seq.element(pos).changeArg(..)` etc.), and the bare
+    copy of the settings `repeatAndVarySequence` starts from -/
+inductive Built : Sequence → Prop
+  | empty : Built {}
+  | setName (s : Sequence) (n : String) : Built s → Built { s with name := n }
+  | setSpec (s : Sequence) (k : String) (v : Spec) : Built s → Built (s.setSpec k v)
+  | setFilter (s : Sequence) (ch : Chan) (kind : String) (order : ℤ) (oi : Bool) (fc tau : Val) :
+      Built s → Built (s.setChannelFilterCompensation ch kind order oi fc tau).st
+  | addElement (s : Sequence) (pos : ℤ) (e : Element) : Built s → Built (s.addElement pos e).st
+  | addSubSequence (s : Sequence) (pos : ℤ) (sub : Sequence) : Built s → Built (s.addSubSequence pos sub).st
+  | setSequencing (s : Sequence) (pos : ℤ) (f : SeqSet → SeqSet) : Built s → Built (s.setSequencing pos f).st
+  | copy (s : Sequence) : Built s → Built s.copy
+  | add (a b s : Sequence) : Built a → Built b → a.add b = .ok s → Built s
+  | modifyElement (s : Sequence) (pos : ℤ) (f : Element → Res Element) : Built s → Built (Tools.modifyElement s pos f).st
+  | specsOf (s : Sequence) : Built s → Built { awgspecs := s.awgspecs }
+
+/-- what the forge theorems need of a sequence: sequencing entries under the same keys as the
+    entries, no setting stored twice -/
+def SeqInv (s : Sequence) : Prop := Aligned s ∧ Dict.WF s.awgspecs
+
+/-- **every sequence built through the public interface** keeps its sequencing entries under the
+    keys of its entries (so `addCore_sequencing`, `addCore_assoc`, `forge_add` apply to it) -/
+theorem built_inv (s : Sequence) (h : Built s) : SeqInv s := by
+  induction h with
+  | empty => exact ⟨rfl, Dict.wf_nil⟩
+  | setName s n _ ih => exact ih
+  | setSpec s k v _ ih => exact ⟨ih.1, Dict.wf_upsert ih.2 k v⟩
+  | setFilter s ch kind order oi fc tau _ ih =>
+    unfold SeqCore.setChannelFilterCompensation
+    split
+    · exact ih
+    · split
+      · exact ih
+      · split
+        · exact ih
+        · exact ⟨ih.1, Dict.wf_upsert ih.2 _ _⟩
+  | addElement s pos e _ ih =>
+    unfold Sequence.addElement
+    split
+    · exact ih
+    · exact ⟨G5.keys_upsert_congr _ _ _ _ _ ih.1, ih.2⟩
+  | addSubSequence s pos sub _ ih =>
+    unfold Sequence.addSubSequence
+    split
+    · exact ih
+    · split
+      · exact ih
+      · exact ⟨G5.keys_upsert_congr _ _ _ _ _ ih.1, ih.2⟩
+  | setSequencing s pos f _ ih =>
+    unfold SeqCore.setSequencing
+    split
+    · exact ih
+    · rename_i q hq
+      refine ⟨?_, ih.2⟩
+      show Dict.keys (Dict.upsert s.sequencing pos (f q)) = Dict.keys s.data
+      rw [Dict.keys_upsert_of_mem _ _ _ ((Dict.get?_isSome_iff _ _).mp (by simp [hq]))]
+      exact ih.1
+  | copy s _ ih => exact ih
+  | add a b s _ _ hadd iha ihb =>
+    obtain ⟨ha, hb, _, rfl⟩ := (add_ok_iff a b s).mp hadd
+    exact ⟨addCore_aligned a b (positions_of_consistent a ha) (positions_of_consistent b hb) iha.1 ihb.1, ihb.2⟩
+  | modifyElement s pos f _ ih =>
+    unfold Tools.modifyElement
+    split
+    · rename_i e he
+      refine ⟨?_, ih.2⟩
+      show Dict.keys s.sequencing = Dict.keys (Dict.upsert s.data pos _)
+      rw [Dict.keys_upsert_of_mem _ _ _ ((Dict.get?_isSome_iff _ _).mp (by simp [he]))]
+      exact ih.1
+    · exact ih
+    · exact ih
+  | specsOf s _ ih => exact ⟨rfl, ih.2⟩
+
+/-- clause "sequencing entries of a + b": `Aligned`, the hypothesis of `addCore_sequencing`, holds of every built sequence -/
+theorem built_aligned (s : Sequence) (h : Built s) : Aligned s := (built_inv s h).1
+
+/-! ### associativity at the level of `+` -/
+
+theorem spec_beq_trans (x y z : Spec) (h1 : (x == y) = true) (h2 : (y == z) = true) : (x == z) = true := by
+  simp only [beq_iff_eq] at *
+  exact h1.trans h2
+
+/-- **`(a + b) + c = a + (b + c)`**: for consistent `a`, `b`, `c` with equal AWG settings over the
+    same channels both sums return, and they return the same sequence -/
+theorem add_assoc (a b c : Sequence)
+    (ha : a.checkConsistency = .ok true) (hb : b.checkConsistency = .ok true) (hc : c.checkConsistency = .ok true)
+    (hab : Dict.eqBy (· == ·) a.awgspecs b.awgspecs = true) (hbc : Dict.eqBy (· == ·) b.awgspecs c.awgspecs = true)
+    (sab : SameShape a b) (sbc : SameShape b c) (ia : Aligned a) (ib : Aligned b) (ic : Aligned c) :
+    ∃ ab bc s, a.add b = .ok ab ∧ ab.add c = .ok s ∧ b.add c = .ok bc ∧ a.add bc = .ok s := by
+  have hpa := positions_of_consistent a ha
+  have hpb := positions_of_consistent b hb
+  have hpc := positions_of_consistent c hc
+  refine ⟨addCore a b, addCore b c, addCore (addCore a b) c, ?_, ?_, ?_, ?_⟩
+  · exact (add_ok_iff a b _).mpr ⟨ha, hb, hab, rfl⟩
+  · exact (add_ok_iff _ c _).mpr ⟨add_consistent a b ha hb sab, hc, hbc, rfl⟩
+  · exact (add_ok_iff b c _).mpr ⟨hb, hc, hbc, rfl⟩
+  · exact (add_ok_iff a _ _).mpr ⟨ha, add_consistent b c hb hc sbc,
+      G5.eqBy_trans _ spec_beq_trans _ _ _ hab hbc, addCore_assoc a b c hpa hpb hpc ia ib ic⟩
+
+/-! ### the forged output of `a + b` -/
+
+/-- sequencing entry of position `p ≤ len(a)` of the sum: `a`'s, unchanged -/
+theorem addCore_seq_left (a b : Sequence) (ha : Positions a.data) (hb : Positions b.data)
+    (hsa : Aligned a) (hsb : Aligned b) (p : ℤ) (hp : p ∈ Dict.keys a.data) :
+    Dict.get? (addCore a b).sequencing p = Dict.get? a.sequencing p := by
+  rw [addCore_sequencing a b ha hb hsa hsb, Dict.get?_append_left]
+  rw [hsa]; exact hp
+
+/-- sequencing entry of position `len(a) + p` of the sum: `b`'s entry for `p`, retargeted -/
+theorem addCore_seq_right (a b : Sequence) (ha : Positions a.data) (hb : Positions b.data)
+    (hsa : Aligned a) (hsb : Aligned b) (p : ℤ) (hp : p ∈ Dict.keys b.data) :
+    Dict.get? (addCore a b).sequencing (p + (a.data.length : ℤ)) =
+      (Dict.get? b.sequencing p).map (retargetSeq (a.data.length : ℤ)) := by
+  rw [addCore_sequencing a b ha hb hsa hsb, Dict.get?_append_right]
+  · exact Dict.get?_map_key_val b.sequencing (· + (a.data.length : ℤ)) (fun _ _ h => by simpa using h) _ p
+  · intro hmem
+    rw [hsa] at hmem
+    have h2 := (ha.mem _).mp hmem
+    have h3 := (hb.mem p).mp hp
+    omega
+
+/-- a forged position of the right operand as it appears in the sum: re-labelled `len(a)` further,
+    goto and jump target retargeted, content untouched -/
+def shiftPos (N : ℕ) (r : ℕ × ForgedPos) : ℕ × ForgedPos :=
+  (r.1 + N, { r.2 with sequencing := retargetSeq (N : ℤ) r.2.sequencing })
+
+/-- helper: a key of a dictionary has a value (used for the forged-output clause) -/
+theorem get_some_of_mem_keys {α : Type} (d : Dict ℤ α) (k : ℤ) (h : k ∈ Dict.keys d) : ∃ v, Dict.get? d k = some v :=
+  Option.isSome_iff_exists.mp ((Dict.get?_isSome_iff d k).mpr h)
+
+/-- the core of `forge_add`: the positions of the sum forge to `a`'s followed by `b`'s shifted, given
+    the position-by-position results of the operands and the channel list of the sum -/
+theorem forge_add_core (a b : Sequence) (ha : a.checkConsistency = .ok true) (hb : b.checkConsistency = .ok true)
+    (hab : Dict.eqBy (· == ·) a.awgspecs b.awgspecs = true) (hsh : SameShape a b) (ia : SeqInv a) (ib : SeqInv b)
+    (d f t : Bool) (fa fb : List (ℕ × ForgedPos))
+    (hsa : (List.range a.data.length).mapM (forgeStep a d f t) = .ok fa)
+    (hsb : (List.range b.data.length).mapM (forgeStep b d f t) = .ok fb)
+    (hch : ∃ c, (addCore a b).channels = .ok c) :
+    (addCore a b).forge d f t = .ok (fa ++ fb.map (shiftPos a.data.length)) := by
+  have hpa := positions_of_consistent a ha
+  have hpb := positions_of_consistent b hb
+  have hcons := add_consistent a b ha hb hsh
+  have hlen := (addCore_positions a b hpa hpb).1
+  -- settings: the sum answers every look-up like `a` and like `b`
+  have specA : SameSpecs (addCore a b) a := fun k => (G5.eqBy_get ia.2 ib.2 hab k).symm
+  have specB : SameSpecs (addCore a b) b := fun _ => rfl
+  rw [forge_ok_iff_steps]
+  refine ⟨hcons, hch, ?_⟩
+  · rw [hlen, List.range_add]
+    apply mapM_append_ok
+    · rw [← hsa]
+      apply mapM_congr_ok
+      intro i hi
+      have hi' : i < a.data.length := List.mem_range.mp hi
+      have hk : ((i + 1 : ℕ) : ℤ) ∈ Dict.keys a.data := (hpa.mem _).mpr (by push_cast; omega)
+      obtain ⟨en, hen⟩ := get_some_of_mem_keys _ _ hk
+      obtain ⟨q, hq⟩ := get_some_of_mem_keys a.sequencing _ (by rw [ia.1]; exact hk)
+      have hq' : Dict.get? (addCore a b).sequencing ((i + 1 : ℕ) : ℤ) = some q := by
+        rw [addCore_seq_left a b hpa hpb ia.1 ib.1 _ hk, hq]
+      unfold forgeStep
+      rw [addCore_get_left a b hpa hpb _ hk, hen]
+      simp only [Option.map_some]
+      rw [forgePos_copyEntry, forgePos_reseat _ a specA d f t (i + 1) (i + 1) q q hq' hq,
+        forgePos_self_reseat a d f t (i + 1) q hq]
+    · rw [mapM_map_ok]
+      apply mapM_map_result (forgeStep b d f t) _ (shiftPos a.data.length) _ _ hsb
+      intro j hj
+      have hj' : j < b.data.length := List.mem_range.mp hj
+      have hk : ((j + 1 : ℕ) : ℤ) ∈ Dict.keys b.data := (hpb.mem _).mpr (by push_cast; omega)
+      obtain ⟨en, hen⟩ := get_some_of_mem_keys _ _ hk
+      obtain ⟨q, hq⟩ := get_some_of_mem_keys b.sequencing _ (by rw [ib.1]; exact hk)
+      have hcast : ((a.data.length + j + 1 : ℕ) : ℤ) = ((j + 1 : ℕ) : ℤ) + (a.data.length : ℤ) := by
+        push_cast; ring
+      have hq' : Dict.get? (addCore a b).sequencing ((a.data.length + j + 1 : ℕ) : ℤ) =
+          some (retargetSeq (a.data.length : ℤ) q) := by
+        rw [hcast, addCore_seq_right a b hpa hpb ia.1 ib.1 _ hk, hq]; rfl
+      unfold forgeStep
+      rw [hcast, addCore_get_right a b hpa hpb _ hk, hen]
+      simp only [Option.map_some]
+      rw [forgePos_copyEntry, forgePos_reseat _ b specB d f t (a.data.length + j + 1) (j + 1) _ q hq' hq]
+      conv_rhs => rw [← forgePos_self_reseat b d f t (j + 1) q hq]
+      cases b.forgePos d f t (j + 1) en with
+      | error e => rfl
+      | ok r =>
+        simp only [Except.map, reseat, shiftPos, Except.ok.injEq, Prod.mk.injEq, and_true]
+        omega
+
+/-- **the forged output of `a + b` is that of `a` followed by that of `b`**: for operands built
+    through the public interface (`SeqInv`) over the same channels, with every option combination
+    of `forge`: the positions of `a` forge exactly as in `a` (content and sequencing), the positions
+    of `b` appear `len(a)` further with the same content and retargeted goto/jump target -/
+theorem forge_add (a b s : Sequence) (h : a.add b = .ok s) (hsh : SameShape a b) (ia : SeqInv a) (ib : SeqInv b)
+    (d f t : Bool) (fa fb : List (ℕ × ForgedPos)) (hfa : a.forge d f t = .ok fa) (hfb : b.forge d f t = .ok fb) :
+    s.forge d f t = .ok (fa ++ fb.map (shiftPos a.data.length)) := by
+  obtain ⟨ha, hb, hab, rfl⟩ := (add_ok_iff a b s).mp h
+  have hpa := positions_of_consistent a ha
+  have hpb := positions_of_consistent b hb
+  obtain ⟨_, ⟨ca, hca⟩, hsa⟩ := (forge_ok_iff_steps a d f t fa).mp hfa
+  obtain ⟨_, _, hsb⟩ := (forge_ok_iff_steps b d f t fb).mp hfb
+  have hcons := add_consistent a b ha hb hsh
+  refine forge_add_core a b ha hb hab hsh ia ib d f t fa fb hsa hsb ?_
+  -- `channels` of the sum: those of position 1, which is `a`'s position 1
+  unfold Sequence.channels at hca ⊢
+  simp only [ha, hcons, bind, Except.bind, Bool.not_true, Bool.false_eq_true, if_false] at hca ⊢
+  cases h1 : Dict.get? a.data 1 with
+  | none => rw [h1] at hca; cases hca
+  | some en =>
+    rw [h1] at hca
+    have hk : (1 : ℤ) ∈ Dict.keys a.data := (Dict.get?_isSome_iff _ _).mp (by simp [h1])
+    rw [addCore_get_left a b hpa hpb 1 hk, h1]
+    simp only [Option.map_some, channels_copyEntry]
+    exact ⟨ca, hca⟩
+
+/-- helper for the empty-left-operand case of the forged-output clause: shifting by 0 positions changes nothing -/
+theorem shiftPos_zero (r : ℕ × ForgedPos) : shiftPos 0 r = r := by
+  obtain ⟨p, ⟨q, b, c⟩⟩ := r
+  obtain ⟨q1, q2, q3, q4, q5⟩ := q
+  simp only [shiftPos, retargetSeq, Gen.retargetGoto, Gen.retargetJump, Nat.cast_zero, add_zero, ite_self]
+
+/-- **empty left operand** (e.g. the bare settings `repeatAndVarySequence` starts from): the sum
+    forges exactly like the right operand -/
+theorem forge_add_empty_left (a b s : Sequence) (h : a.add b = .ok s) (hempty : a.data = []) (ia : SeqInv a)
+    (ib : SeqInv b) (d f t : Bool) (fb : List (ℕ × ForgedPos)) (hfb : b.forge d f t = .ok fb) :
+    s.forge d f t = .ok fb := by
+  obtain ⟨ha, hb, hab, rfl⟩ := (add_ok_iff a b s).mp h
+  have hpa := positions_of_consistent a ha
+  have hpb := positions_of_consistent b hb
+  have hsh : SameShape a b := by intro x hx; rw [hempty] at hx; simp [Dict.vals] at hx
+  obtain ⟨_, ⟨cb, hcb⟩, hsb⟩ := (forge_ok_iff_steps b d f t fb).mp hfb
+  have hcons := add_consistent a b ha hb hsh
+  have hsa : (List.range a.data.length).mapM (forgeStep a d f t) = .ok [] := by rw [hempty]; rfl
+  have := forge_add_core a b ha hb hab hsh ia ib d f t [] fb hsa hsb ?_
+  · rw [this, hempty]
+    simp only [List.length_nil, List.nil_append]
+    congr 1
+    rw [List.map_congr_left (fun r _ => shiftPos_zero r), List.map_id']
+  · unfold Sequence.channels at hcb ⊢
+    simp only [hb, hcons, bind, Except.bind, Bool.not_true, Bool.false_eq_true, if_false] at hcb ⊢
+    cases h1 : Dict.get? b.data 1 with
+    | none => rw [h1] at hcb; cases hcb
+    | some en =>
+      rw [h1] at hcb
+      have hk : (1 : ℤ) ∈ Dict.keys b.data := (Dict.get?_isSome_iff _ _).mp (by simp [h1])
+      have := addCore_get_right a b hpa hpb 1 hk
+      rw [hempty] at this
+      simp only [List.length_nil, Nat.cast_zero, add_zero] at this
+      skip
+      rw [this, h1]
+      simp only [Option.map_some, channels_copyEntry]
+      exact ⟨cb, hcb⟩
+
+/-! ### blueprint concatenation: markers, and a second operand with a waituntil -/
+
+/-- the marker specifications (absolute ones, then the segment-bound ones converted to absolute
+    time) a blueprint's marker `which` is painted from when it is forged with sample counts `ns` -/
+def markSpecs (b : BP) (sr : ℚ) (ns : List ℕ) (which : ℕ) : List Mark :=
+  if which = 1 then b.marker1 ++ segMarks sr (·.m1) b.segs (starts ns 0)
+  else b.marker2 ++ segMarks sr (·.m2) b.segs (starts ns 0)
+
+/-- the per-segment sample counts a blueprint is forged with (`[]` when it does not forge) -/
+def countsOf (b : BP) (sr : ℚ) : List ℕ :=
+  match b.resolveWaits with
+  | .ok ds => (match countsGo sr ds with | .ok ns => ns | .error _ => [])
+  | .error _ => []
+
+/-- helper for the blueprint-marker clause: `countsOf` is the list of sample counts the forger computed -/
+theorem countsOf_eq (b : BP) (sr : ℚ) (ds : List ℚ) (ns : List ℕ) (h1 : b.resolveWaits = .ok ds)
+    (h2 : countsGo sr ds = .ok ns) : countsOf b sr = ns := by
+  simp only [countsOf, h1, h2]
+
+/-- the absolute markers of a blueprint -/
+def absMarks (b : BP) (which : ℕ) : List Mark := if which = 1 then b.marker1 else b.marker2
+
+/-- the segment-bound markers of a blueprint, as absolute specifications -/
+def segSpecs (b : BP) (sr : ℚ) (ns : List ℕ) (which : ℕ) : List Mark :=
+  if which = 1 then segMarks sr (·.m1) b.segs (starts ns 0) else segMarks sr (·.m2) b.segs (starts ns 0)
+
+/-- marker `which` of a forged blueprint -/
+def markerOf (f : Forged) (which : ℕ) : List ℕ := if which = 1 then f.m1 else f.m2
+
+/-- helper for the blueprint-marker clause: a forged marker is the painting of its marker specifications -/
+theorem markerOf_assemble (b : BP) (sr : ℚ) (ns : List ℕ) (which : ℕ) :
+    markerOf (assemble b sr ns) which =
+      paint (sumN ns) ((absMarks b which ++ segSpecs b sr ns which).map (window (sumN ns) sr)) := by
+  unfold markerOf absMarks segSpecs assemble
+  split <;> rfl
+
+/-- **general form of blueprint concatenation** (second operand with or without waituntil): the
+    segments of `b₂` are resolved with the elapsed time starting at the duration of `b₁` — a
+    `waituntil t` inside `b₂` therefore waits until the absolute time `t` of the sum — and the sum
+    forges from the two lists of sample counts: blocks side by side; marker `which` painted from
+    `b₁`'s absolute markers, `b₂`'s absolute markers (unshifted), `b₁`'s segment-bound markers and
+    `b₂`'s segment-bound markers moved `N₁/SR` later -/
+theorem bp_add_forge_general (a b : BP) (sr : ℚ) (ha : a.SR = .num sr)
+    (da db : List ℚ) (na nb : List ℕ)
+    (hda : a.resolveWaits = .ok da) (hna : countsGo sr da = .ok na) (hba : badSpecial a = false)
+    (hdb : BP.resolveGo b.segs (sumR da) = .ok db) (hnb : countsGo sr db = .ok nb) (hbb : badSpecial b = false) :
+    ∃ f, forgeBP (a.add b) = .ok f ∧ f.blocks = mkBlocks sr a.segs na ++ mkBlocks sr b.segs nb ∧
+      f.N = sumN na + sumN nb ∧ f.SR = sr ∧
+      f.newdurations = (na ++ nb).map (fun (n : ℕ) => ((n : ℤ) : ℚ) / sr) ∧
+      ∀ which, markerOf f which =
+        paint (sumN na + sumN nb)
+          ((absMarks a which ++ absMarks b which ++
+            (segSpecs a sr na which ++
+              (segSpecs b sr nb which).map (fun m => (m.1 + (((sumN na : ℕ) : ℤ) : ℚ) / sr, m.2)))).map
+            (window (sumN na + sumN nb) sr)) := by
+  let c : BP := { segs := a.segs ++ b.segs, marker1 := a.marker1 ++ b.marker1, marker2 := a.marker2 ++ b.marker2, SR := a.SR }
+  have hc : forgeBP (a.add b) = forgeBP c := forgeBP_body _ _ (add_body a b) rfl rfl rfl
+  have hres : c.resolveWaits = .ok (da ++ db) := by
+    unfold BP.resolveWaits at *
+    apply resolveGo_append a.segs b.segs 0 da db hda
+    rw [zero_add]; exact hdb
+  have hcnt := C10.countsGo_append sr da db na nb hna hnb
+  have hbad : badSpecial c = false := by
+    rw [badSpecial_append a b c rfl, hba, hbb]; rfl
+  have hlen : na.length = a.segs.length := by
+    rw [countsGo_length sr da na hna, resolveGo_length a.segs 0 da hda]
+  have hst : (starts na 0).length = a.segs.length := by rw [starts_length, hlen]
+  refine ⟨assemble c sr (na ++ nb), ?_, ?_, ?_, rfl, rfl, ?_⟩
+  · rw [hc, (forge_ok_iff c _)]
+    exact ⟨sr, da ++ db, na ++ nb, ha, hres, hcnt, hbad, rfl⟩
+  · simp only [assemble]
+    exact C10.mkBlocks_append sr a.segs b.segs na nb hlen
+  · simp only [assemble, sumN_append]
+  · intro which
+    rw [markerOf_assemble, sumN_append]
+    have key : ∀ sel : Seg → Mark, segMarks sr sel (a.segs ++ b.segs) (starts (na ++ nb) 0) =
+        segMarks sr sel a.segs (starts na 0) ++
+          (segMarks sr sel b.segs (starts nb 0)).map (fun m => (m.1 + (((sumN na : ℕ) : ℤ) : ℚ) / sr, m.2)) := by
+      intro sel
+      rw [G5.starts_append, G5.segMarks_append sr sel _ _ _ _ hst, Nat.zero_add,
+        G5.segMarks_starts_shift sr sel b.segs nb (sumN na)]
+    unfold absMarks segSpecs
+    by_cases hw : which = 1
+    · simp only [hw, if_true, c, key, List.append_assoc]
+    · simp only [hw, if_false, c, key, List.append_assoc]
+
+/-- **markers of `b₁ + b₂`** (no waituntil in `b₂`), formula: with `fa`, `fb` the forged operands,
+    marker `which` of the sum is painted, on the joint axis of `fa.N + fb.N` samples, from `b₁`'s
+    marker specifications, `b₂`'s absolute markers as they are (documented as absolute) and `b₂`'s
+    segment-bound markers moved `fa.N / SR` later — they stay attached to their segments -/
+theorem bp_add_forge_markers (a b : BP) (sr : ℚ) (ha : a.SR = .num sr) (hb : b.SR = .num sr)
+    (hnw : ∀ s ∈ b.segs, s.fn.isWait = false) (fa fb : Forged)
+    (h1 : forgeBP a = .ok fa) (h2 : forgeBP b = .ok fb) :
+    ∃ f, forgeBP (a.add b) = .ok f ∧ fa = assemble a sr (countsOf a sr) ∧ fb = assemble b sr (countsOf b sr) ∧
+      f.N = fa.N + fb.N ∧
+      ∀ which, markerOf f which =
+        paint (fa.N + fb.N)
+          ((absMarks a which ++ absMarks b which ++
+            (segSpecs a sr (countsOf a sr) which ++
+              (segSpecs b sr (countsOf b sr) which).map (fun m => (m.1 + (((fa.N : ℕ) : ℤ) : ℚ) / sr, m.2)))).map
+            (window (fa.N + fb.N) sr)) := by
+  obtain ⟨sra, da, na, hsa, hda, hna, hba, rfl⟩ := (forge_ok_iff a fa).mp h1
+  obtain ⟨srb, db, nb, hsb, hdb, hnb, hbb, rfl⟩ := (forge_ok_iff b fb).mp h2
+  rw [ha] at hsa; cases hsa
+  rw [hb] at hsb; cases hsb
+  have hdb' : BP.resolveGo b.segs (sumR da) = .ok db := by
+    rw [resolveGo_nowait b.segs hnw _ 0]; exact hdb
+  obtain ⟨f, hf, _, hN, _, _, hm⟩ := bp_add_forge_general a b sr ha da db na nb hda hna hba hdb' hnb hbb
+  rw [countsOf_eq a sr da na hda hna, countsOf_eq b sr db nb hdb hnb]
+  exact ⟨f, hf, rfl, rfl, hN, hm⟩
+
+/-- **the markers of `b₁ + b₂` are those of `b₁` followed by those of `b₂`** — on the property's
+    domain (no waituntil and no absolute marker in `b₂`), for segment-bound markers of `b₂` with
+    non-negative delay and duration, and provided `b₁`'s own windows are the same on the longer
+    axis (they do not run into the end of `b₁`, where forging `b₁` alone would clip them) -/
+theorem bp_add_markers_concat (a b : BP) (sr : ℚ) (hsr : 0 < sr) (ha : a.SR = .num sr) (hb : b.SR = .num sr)
+    (hnw : ∀ s ∈ b.segs, s.fn.isWait = false) (which : ℕ) (hnoabs : absMarks b which = [])
+    (hpos : ∀ s ∈ b.segs, 0 ≤ s.m1.1 ∧ 0 ≤ s.m1.2 ∧ 0 ≤ s.m2.1 ∧ 0 ≤ s.m2.2)
+    (fa fb : Forged) (h1 : forgeBP a = .ok fa) (h2 : forgeBP b = .ok fb) (hne : b.segs ≠ [])
+    (hfit : ∀ m ∈ absMarks a which ++ segSpecs a sr (countsOf a sr) which,
+      window (fa.N + fb.N) sr m = window fa.N sr m) :
+    ∃ f, forgeBP (a.add b) = .ok f ∧ markerOf f which = markerOf fa which ++ markerOf fb which := by
+  obtain ⟨f, hf, hfa, hfb, hN, hm⟩ := bp_add_forge_markers a b sr ha hb hnw fa fb h1 h2
+  generalize countsOf a sr = na at hfa hm hfit
+  generalize countsOf b sr = nb at hfb hm
+  refine ⟨f, hf, ?_⟩
+  rw [hm which, hnoabs, List.append_nil, ← List.append_assoc, List.map_append]
+  have hfit' := hfit
+  rw [List.map_congr_left (f := window (fa.N + fb.N) sr) (g := window fa.N sr) hfit']
+  -- the shifted windows of `b₂`
+  have hNb : 0 < fb.N := by
+    obtain ⟨srb, db, nb', hsb, hdb, hnb, _, rfl⟩ := (forge_ok_iff b fb).mp h2
+    have hl : nb'.length = b.segs.length := by
+      rw [countsGo_length srb db nb' hnb, resolveGo_length b.segs 0 db hdb]
+    cases hnb' : nb' with
+    | nil => rw [hnb'] at hl; exact absurd (List.eq_nil_of_length_eq_zero hl.symm) hne
+    | cons n ns =>
+      rw [hnb'] at hnb
+      cases hdb' : db with
+      | nil => rw [hdb'] at hnb; simp [countsGo] at hnb
+      | cons d ds =>
+        rw [hdb'] at hnb
+        simp only [countsGo] at hnb
+        split at hnb
+        · cases hnb
+        · rename_i hs
+          split at hnb
+          · cases hnb
+          · simp only [Except.ok.injEq, List.cons.injEq] at hnb
+            simp only [assemble, sumN]
+            have : ¬ (segCount d srb < 2) := by simpa [Gen.segTooShort] using hs
+            omega
+  have hshift : ∀ m ∈ segSpecs b sr nb which,
+      window (fa.N + fb.N) sr (m.1 + (((fa.N : ℕ) : ℤ) : ℚ) / sr, m.2) =
+        ((window fb.N sr m).1 + fa.N, (window fb.N sr m).2 + fa.N) := by
+    intro m hmem
+    have hmem' : ∃ sel : Seg → Mark, (∀ s ∈ b.segs, 0 ≤ (sel s).1 ∧ 0 ≤ (sel s).2) ∧
+        m ∈ segMarks sr sel b.segs (starts nb 0) := by
+      unfold segSpecs at hmem
+      by_cases hw : which = 1
+      · simp only [hw, if_true] at hmem
+        exact ⟨(·.m1), fun s hs => ⟨(hpos s hs).1, (hpos s hs).2.1⟩, hmem⟩
+      · simp only [hw, if_false] at hmem
+        exact ⟨(·.m2), fun s hs => ⟨(hpos s hs).2.2.1, (hpos s hs).2.2.2⟩, hmem⟩
+    obtain ⟨sel, hsel, hmem2⟩ := hmem'
+    have hlen : (starts nb 0).length = b.segs.length := by
+      rw [starts_length]
+      obtain ⟨srb, db, nb', hsb, hdb, hnb, _, hfb'⟩ := (forge_ok_iff b fb).mp h2
+      rw [hb] at hsb; cases hsb
+      -- `nb` and `nb'` produce the same forged blueprint, hence the same number of durations
+      have h3 : (assemble b sr nb).newdurations.length = (assemble b sr nb').newdurations.length := by
+        rw [← hfb, hfb']
+      simp only [assemble, List.length_map] at h3
+      rw [h3, countsGo_length sr db nb' hnb, resolveGo_length b.segs 0 db hdb]
+    obtain ⟨i, hi1, hi2, _, rfl⟩ := (segMarks_mem sr sel b.segs _ hlen m).mp hmem2
+    have hs := hsel b.segs[i] (List.getElem_mem _)
+    apply G5.window_shift fa.N fb.N sr (ne_of_gt hsr) _ hNb
+    · simp only
+      have : (0 : ℚ) ≤ (((starts nb 0)[i] : ℕ) : ℤ) := by exact_mod_cast Nat.zero_le _
+      have h0 : (0 : ℚ) ≤ (((starts nb 0)[i] : ℕ) : ℤ) / sr := div_nonneg this hsr.le
+      exact mul_nonneg (add_nonneg h0 hs.1) hsr.le
+    · simp only
+      have := G5.rhe_nonneg ((sel b.segs[i]).2 * sr) (mul_nonneg hs.2 hsr.le)
+      omega
+  have this : ((segSpecs b sr nb which).map (fun m => (m.1 + (((fa.N : ℕ) : ℤ) : ℚ) / sr, m.2))).map
+        (window (fa.N + fb.N) sr) =
+      ((segSpecs b sr nb which).map (window fb.N sr)).map (fun w => (w.1 + fa.N, w.2 + fa.N)) := by
+    rw [List.map_map, List.map_map]
+    apply List.map_congr_left
+    intro m hm
+    simp only [Function.comp]
+    exact hshift m hm
+  rw [this, G5.paint_juxtaposed fa.N fb.N _ _ (fun w hw => by
+    obtain ⟨m, _, rfl⟩ := List.mem_map.mp hw
+    exact BB.window_clipped _ _ _)]
+  congr 1
+  · rw [hfa, markerOf_assemble]
+    have : (assemble a sr na).N = sumN na := rfl
+    rw [this]
+  · rw [hfb, markerOf_assemble, show absMarks b which = [] from hnoabs, List.nil_append]
+    have : (assemble b sr nb).N = sumN nb := rfl
+    rw [this]
+
+/-! ### non-vacuity, and the counterexamples -/
+
+def exBP : BP :=
+  { segs := [{ name := "ramp", fn := Fn.rampFn, args := [.num 0, .num 1], dur := .num 1 }], SR := .num 10 }
+
+def exEl (ch : Chan) : Element := ⟨[(ch, { data := .bp exBP })], none⟩
+
+/-- a one-position sequence on channel `ch`, built through the public interface, whose position
+    carries goto = `g` and jump target -1 -/
+def exSeq (ch : Chan) (g : ℤ) : Sequence :=
+  (SeqCore.setSequencing (Sequence.addElement (SeqCore.setSR ({} : Sequence) (.num 10)) 1 (exEl ch)).st 1
+    (fun q => { q with goto := g, jump_target := -1 })).st
+
+/-- the example sequences are `Built`, hence satisfy `SeqInv` (non-vacuity of `built_inv`) -/
+theorem exSeq_built (ch : Chan) (g : ℤ) : Built (exSeq ch g) :=
+  .setSequencing _ _ _ (.addElement _ _ _ (.setSpec _ _ _ .empty))
+
+/-- so is their sum (an instance of the `add` constructor) -/
+example (s : Sequence) (h : (exSeq (.int 1) 1).add (exSeq (.int 1) 0) = .ok s) : SeqInv s :=
+  built_inv s (.add _ _ s (exSeq_built _ _) (exSeq_built _ _) h)
+
+/-- the hypotheses of `add_consistent`, `add_assoc`, `add_positions`, `forge_add` hold of concrete operands:
+    consistent, over the same channels, equal settings, forgeable, and `+` returns -/
+example : (exSeq (.int 1) 1).checkConsistency = .ok true ∧ SameShape (exSeq (.int 1) 1) (exSeq (.int 1) 0) ∧
+    Dict.eqBy (· == ·) (exSeq (.int 1) 1).awgspecs (exSeq (.int 1) 0).awgspecs = true ∧
+    ((exSeq (.int 1) 1).forge false false false).toOption.isSome = true ∧
+    ((exSeq (.int 1) 1).add (exSeq (.int 1) 0)).toOption.isSome = true := by decide +kernel
+
+/-- ... and the forged sum is as `forge_add` says: two positions; the right operand's goto 1 has
+    become 2, its jump target -1 is still -1, the left operand's entries are unchanged -/
+example : (((exSeq (.int 1) 1).add (exSeq (.int 1) 1)).bind (fun s => s.forge false false false)).map
+      (fun out => out.map (fun r => (r.1, r.2.sequencing.goto, r.2.sequencing.jump_target))) =
+    .ok [(1, 1, -1), (2, 2, -1)] := by decide +kernel
+
+/-- an empty left operand carrying the settings (hypotheses of `forge_add_empty_left`) -/
+example : ((Sequence.add { awgspecs := (exSeq (.int 1) 1).awgspecs } (exSeq (.int 1) 1)).bind
+      (fun s => s.forge false false false)).toOption.isSome = true := by decide +kernel
+
+/-- **without "over the same channels" associativity fails**: `+` never checks its result, so with
+    `a` on channel 1 and `b`, `c` on channel 2 the sum `a + b` is returned but is inconsistent;
+    `(a + b) + c` then raises SequenceConsistencyError while `a + (b + c)` returns a sequence -/
+theorem add_assoc_needs_same_channels :
+    (((exSeq (.int 1) 0).add (exSeq (.int 2) 0)).bind (fun ab => ab.add (exSeq (.int 2) 0))).map (fun _ => ()) =
+      .error .consistency ∧
+    (((exSeq (.int 2) 0).add (exSeq (.int 2) 0)).bind (fun bc => (exSeq (.int 1) 0).add bc)).map (fun _ => ()) =
+      .ok () := by decide +kernel
+
+/-- in that example only the same-channels hypothesis of `add_assoc` fails -/
+example : ¬ SameShape (exSeq (.int 1) 0) (exSeq (.int 2) 0) ∧ (exSeq (.int 2) 0).checkConsistency = .ok true ∧
+    Dict.eqBy (· == ·) (exSeq (.int 1) 0).awgspecs (exSeq (.int 2) 0).awgspecs = true := by decide +kernel
+
+def exA : BP :=
+  { segs := [{ name := "ramp", fn := Fn.rampFn, args := [.num 0, .num 1], dur := .num 1, m1 := (1/5, 3/10) }],
+    SR := .num 10 }
+def exB : BP :=
+  { segs := [{ name := "ramp", fn := Fn.rampFn, args := [.num 1, .num 0], dur := .num 1, m1 := (1/10, 1/5) }],
+    SR := .num 10 }
+def exW : BP :=
+  { segs := [{ name := "waituntil", fn := Fn.waitSpecial, args := [.num 2], dur := .none },
+             { name := "ramp", fn := Fn.rampFn, args := [.num 1, .num 0], dur := .num 1 }],
+    SR := .num 10 }
+def exLong : BP :=
+  { segs := [{ name := "ramp", fn := Fn.rampFn, args := [.num 0, .num 1], dur := .num 3 }], SR := .num 10 }
+
+/-- the hypotheses of `bp_add_markers_concat` hold of `exA`, `exB` (marker 1): both forge, `exB` has
+    no waituntil, no absolute marker, non-negative marker delays/durations, and `exA`'s window fits -/
+example : (forgeBP exA).toOption.isSome = true ∧ (forgeBP exB).toOption.isSome = true ∧
+    (∀ s ∈ exB.segs, s.fn.isWait = false) ∧ absMarks exB 1 = [] ∧
+    (∀ s ∈ exB.segs, 0 ≤ s.m1.1 ∧ 0 ≤ s.m1.2 ∧ 0 ≤ s.m2.1 ∧ 0 ≤ s.m2.2) ∧
+    (∀ m ∈ absMarks exA 1 ++ segSpecs exA 10 (countsOf exA 10) 1, window (10 + 10) 10 m = window 10 10 m) := by
+  decide +kernel
+
+/-- ... and the conclusion on that instance: marker 1 of the sum is `exA`'s followed by `exB`'s -/
+example : (forgeBP exA).map (fun f => (f.N, f.m1)) = .ok (10, [0, 0, 1, 1, 1, 0, 0, 0, 0, 0]) ∧
+    (forgeBP exB).map (fun f => (f.N, f.m1)) = .ok (10, [0, 1, 1, 0, 0, 0, 0, 0, 0, 0]) ∧
+    (forgeBP (exA.add exB)).map (fun f => (f.N, f.m1)) =
+      .ok (20, [0, 0, 1, 1, 1, 0, 0, 0, 0, 0, 0, 1, 1, 0, 0, 0, 0, 0, 0, 0]) := by decide +kernel
+
+/-- **a second operand containing a waituntil does not concatenate** (`bp_add_forge_general` says
+    what happens instead): `exW` alone waits until t = 2 s and forges to 30 samples; behind the 1 s
+    blueprint `exA` the wait is only 1 s long, so the sum has 30 samples, not 10 + 30; behind a 3 s
+    blueprint the wait target already lies in the past and forging raises ValueError -/
+theorem bp_add_waituntil_counterexample :
+    (forgeBP exA).map (·.N) = .ok 10 ∧ (forgeBP exW).map (·.N) = .ok 30 ∧
+    (forgeBP (exA.add exW)).map (·.N) = .ok 30 ∧
+    (forgeBP exLong).map (·.N) = .ok 30 ∧ (forgeBP (exLong.add exW)).map (·.N) = .error .value := by
+  decide +kernel
 
 end BB.C16
